@@ -161,22 +161,51 @@ type PanicCase struct {
 	Keys     []int `json:"keys"`      // Get sequence
 	PanicFor []int `json:"panic_for"` // keys whose construction panics
 	Goexit   bool  `json:"goexit"`    // ... or calls runtime.Goexit in a goroutine of its own
+	// Waiters: how many other goroutines are already waiting in Get(k) when the
+	// constructor of a panicking key k panics, and whether one more Get(k)
+	// arrives afterwards.  What those callers experience is not judged (on
+	// the tree under test they wait for ever; they are left behind).  Judged
+	// is only "exactly once": at most one construction of k may complete, and
+	// callers that do get a result get the same one.  (When Waiters > 0 the
+	// constructor panics on its first invocation only.)
+	Waiters int  `json:"waiters,omitempty"`
+	Late    bool `json:"late,omitempty"`
 }
 
 func checkPanic(c PanicCase) error {
 	var cons [8]atomic.Int32
 	bad := func(k int) bool { return slices.Contains(c.PanicFor, k) }
+	var completed [8]atomic.Int32
+	var gates [8]chan struct{}
+	for i := range gates {
+		gates[i] = make(chan struct{})
+	}
 	oc := syncutil.NewOnceConstructor(func(k int) *int32 {
-		cons[k].Add(1)
-		if bad(k) {
+		n := cons[k].Add(1)
+		if bad(k) && (c.Waiters == 0 || n == 1) {
+			if c.Waiters > 0 {
+				<-gates[k] // until the waiters have had time to arrive
+			}
 			if c.Goexit {
 				runtime.Goexit()
 			}
 			panic(fmt.Sprintf("constructor of key %d panicked", k))
 		}
 		v := int32(k)
+		completed[k].Add(1)
 		return &v
 	})
+	var rmu sync.Mutex
+	results := map[int][]*int32{} // what callers of panicking keys received, if they returned at all
+	bystander := func(k int) {
+		go func() {
+			defer func() { _ = recover() }()
+			got := oc.Get(k)
+			rmu.Lock()
+			results[k] = append(results[k], got)
+			rmu.Unlock()
+		}()
+	}
 	first := map[int]*int32{}
 	asked := map[int]bool{}
 	afterPanic := false
@@ -193,7 +222,36 @@ func checkPanic(c PanicCase) error {
 				defer func() { _ = recover() }()
 				oc.Get(k)
 			}()
+			if c.Waiters > 0 {
+				for cons[k].Load() == 0 {
+					runtime.Gosched()
+				}
+				for w := 0; w < c.Waiters; w++ {
+					bystander(k)
+				}
+				time.Sleep(2 * time.Millisecond)
+				close(gates[k])
+			}
 			<-done
+			if c.Waiters > 0 {
+				if c.Late {
+					time.Sleep(time.Millisecond)
+					bystander(k)
+				}
+				time.Sleep(3 * time.Millisecond)
+				rmu.Lock()
+				rs := slices.Clone(results[k])
+				rmu.Unlock()
+				if n := completed[k].Load(); n > 1 {
+					return fmt.Errorf("key %d: the constructor panicked on its first invocation while %d goroutines were waiting in Get(%d) (late Get: %v); afterwards %d constructions of that key completed (invocations: %d): not exactly once per key", k, c.Waiters, k, c.Late, n, cons[k].Load())
+				}
+				for _, r := range rs {
+					if r != rs[0] {
+						return fmt.Errorf("key %d: callers of Get(%d) received different results after the constructor had panicked once (invocations: %d)", k, k, cons[k].Load())
+					}
+				}
+				vp.Class("panic:waiters-present-when-the-constructor-panicked")
+			}
 			afterPanic = true
 			continue
 		}
@@ -225,6 +283,8 @@ var panicProp = vp.Register(vp.Prop[PanicCase]{
 			Keys:     rapid.SliceOfN(rapid.IntRange(0, 5), 2, 14).Draw(t, "keys"),
 			PanicFor: rapid.SliceOfN(rapid.IntRange(0, 5), 1, 2).Draw(t, "panicfor"),
 			Goexit:   rapid.IntRange(0, 3).Draw(t, "goexit") == 0,
+			Waiters:  rapid.SampledFrom([]int{0, 0, 0, 1, 2}).Draw(t, "waiters"),
+			Late:     rapid.Bool().Draw(t, "late"),
 		}
 	},
 	Check: checkPanic,
